@@ -22,6 +22,11 @@ type CaseC17 struct {
 	K     int    `json:"k"`     // concurrent writers
 	Prio  []int  `json:"prio"`  // release priority of the goroutines parked after their append (higher first)
 	Waves int    `json:"waves"` // how many bursts
+	// Post: writers also park after persisting the head, before updating the view and returning; PostPrio is
+	// the release priority among those, PostFirst says which class wins when both kinds are parked
+	Post      bool  `json:"post,omitempty"`
+	PostPrio  []int `json:"post_prio,omitempty"`
+	PostFirst bool  `json:"post_first,omitempty"`
 }
 
 func permutations(n int) [][]int {
@@ -44,6 +49,11 @@ func gridC17() []CaseC17 {
 		for _, p := range permutations(k) {
 			for _, typ := range []string{"eventlog", "keyvalue"} {
 				out = append(out, CaseC17{Type: typ, Pre: k % 2, K: k, Prio: p, Waves: 1})
+				if k <= 3 {
+					for _, q := range permutations(k) {
+						out = append(out, CaseC17{Type: typ, Pre: k % 2, K: k, Prio: p, Waves: 1, Post: true, PostPrio: q, PostFirst: (len(out)/2)%2 == 0})
+					}
+				}
 			}
 		}
 	}
@@ -58,6 +68,11 @@ func genC17(rt *rapid.T) CaseC17 {
 		Waves: rapid.IntRange(1, 2).Draw(rt, "waves"),
 	}
 	c.Prio = rapid.Permutation(seq(c.K)).Draw(rt, "prio")
+	if rapid.Bool().Draw(rt, "post") {
+		c.Post = true
+		c.PostPrio = rapid.Permutation(seq(c.K)).Draw(rt, "postprio")
+		c.PostFirst = rapid.Bool().Draw(rt, "postfirst")
+	}
 	return c
 }
 
@@ -71,6 +86,8 @@ func seq(n int) []int {
 
 type parkedWriter struct {
 	hash    string
+	stage   string // appended | persisted
+	idx     int    // arrival index within its stage
 	release chan struct{}
 }
 
@@ -95,9 +112,34 @@ func execC17(c CaseC17) *Outcome {
 
 	var mu sync.Mutex
 	var parked []*parkedWriter
+	stageCount := map[string]int{}
+	prioOf := func(p *parkedWriter) int {
+		if p.stage == "persisted" {
+			v := 2 * c.PostPrio[p.idx%len(c.PostPrio)]
+			if c.PostFirst {
+				v++
+			}
+			return v
+		}
+		v := 2 * c.Prio[p.idx%len(c.Prio)]
+		if !c.PostFirst {
+			v++
+		}
+		return v
+	}
+	postHeld := false
 	active := true
 	remove := world.AddHook(func(name string, subject interface{}, args []interface{}) {
-		if name != "store.addop.appended" || subject != interface{}(s.Replicator()) {
+		if subject != interface{}(s.Replicator()) {
+			return
+		}
+		stage := ""
+		switch {
+		case name == "store.addop.appended":
+			stage = "appended"
+		case name == "store.addop.persisted" && c.Post:
+			stage = "persisted"
+		default:
 			return
 		}
 		mu.Lock()
@@ -106,7 +148,8 @@ func execC17(c CaseC17) *Outcome {
 			return
 		}
 		e := args[0].(ipfslog.Entry)
-		pw := &parkedWriter{hash: e.GetHash().String(), release: make(chan struct{})}
+		pw := &parkedWriter{hash: e.GetHash().String(), stage: stage, idx: stageCount[stage], release: make(chan struct{})}
+		stageCount[stage]++
 		parked = append(parked, pw)
 		mu.Unlock()
 		<-pw.release
@@ -153,14 +196,30 @@ func execC17(c CaseC17) *Outcome {
 		finished := 0
 		var got []result
 		releasedIdx := map[int]bool{}
-		settle := func() int {
+		// serial: observed at the first settle of the wave — only one writer at a time gets as far as
+		// the append (a lock serialises them); from then on a writer parked after its append is the
+		// only one that can be there and there is no point in waiting for more
+		serial, first := false, true
+		settle := func() (n int) {
+			defer func() {
+				if first {
+					first = false
+					serial = n == 1 && c.K >= 2
+				}
+			}()
 			last, stable := -1, 0
 			deadline := time.Now().Add(5 * time.Second)
 			for time.Now().Before(deadline) {
 				mu.Lock()
 				n := len(parked) - len(releasedIdx) // writers currently parked
+				atAppend := false
+				for i, q := range parked {
+					if !releasedIdx[i] && q.stage == "appended" {
+						atAppend = true
+					}
+				}
 				mu.Unlock()
-				if n+finished >= c.K {
+				if n+finished+len(results) >= c.K || (serial && atAppend) {
 					return n
 				}
 				if n == last {
@@ -200,9 +259,15 @@ func execC17(c CaseC17) *Outcome {
 				if releasedIdx[i] {
 					continue
 				}
-				pi := c.Prio[i%len(c.Prio)]
-				if best < 0 || pi > c.Prio[best%len(c.Prio)] {
+				if best < 0 || prioOf(parked[i]) > prioOf(parked[best]) {
 					best = i
+				}
+			}
+			if best >= 0 && parked[best].stage == "appended" {
+				for i := range parked {
+					if !releasedIdx[i] && parked[i].stage == "persisted" {
+						postHeld = true // a writer goes on while another one sits between persisting and returning
+					}
 				}
 			}
 			var pw *parkedWriter
@@ -231,7 +296,27 @@ func execC17(c CaseC17) *Outcome {
 			}
 			close(pw.release)
 			order++
-			lastPersistedByHook = pw.hash
+			if pw.stage == "appended" {
+				lastPersistedByHook = pw.hash
+			}
+			if pw.stage == "appended" && c.Post {
+				// it parks again after persisting (or returns with an error): wait for either
+				again := world.WaitFor(func() bool {
+					mu.Lock()
+					defer mu.Unlock()
+					for _, q := range parked {
+						if q.stage == "persisted" && q.hash == pw.hash {
+							return true
+						}
+					}
+					return len(results) > 0
+				}, 20*time.Second)
+				if !again {
+					o.Inconclusive = true
+					return o
+				}
+				continue
+			}
 			// wait until that writer returns before releasing the next one, so that
 			// the persist order is exactly the release order
 			select {
@@ -308,6 +393,9 @@ func execC17(c CaseC17) *Outcome {
 	}
 	if infeasible {
 		o.Labels = append(o.Labels, "schedule-partly-infeasible(lock)")
+	}
+	if postHeld {
+		o.Labels = append(o.Labels, "writer-held-after-persist-while-another-wrote")
 	}
 	o.Labels = append(o.Labels, fmt.Sprintf("k=%d", c.K))
 	return o
